@@ -311,6 +311,42 @@ fn random_ranges(rng: &mut Rng, text: &[u8], bounds: &[usize]) -> Vec<(usize, us
     v
 }
 
+/// Smallest single edit turning `cur` into `target` (common prefix / suffix removed).
+fn diff_edit(cur: &[u8], target: &[u8]) -> TextEdit {
+    let mut p = 0;
+    while p < cur.len() && p < target.len() && cur[p] == target[p] {
+        p += 1;
+    }
+    let mut s = 0;
+    while s < cur.len() - p && s < target.len() - p && cur[cur.len() - 1 - s] == target[target.len() - 1 - s] {
+        s += 1;
+    }
+    TextEdit { start: p, old_end: cur.len() - s, ins: target[p..target.len() - s].to_vec() }
+}
+
+/// (kind id, start, end) of every leaf of the public tree.
+fn leaves(tree: &Tree) -> Vec<(u16, usize, usize)> {
+    let mut v = Vec::new();
+    let mut c = tree.walk();
+    loop {
+        let n = c.node();
+        if n.child_count() == 0 && n.end_byte() > n.start_byte() && !n.is_error() {
+            v.push((n.kind_id(), n.start_byte(), n.end_byte()));
+        }
+        if c.goto_first_child() {
+            continue;
+        }
+        loop {
+            if c.goto_next_sibling() {
+                break;
+            }
+            if !c.goto_parent() {
+                return v;
+            }
+        }
+    }
+}
+
 fn token_bounds(tree: &Tree) -> Vec<usize> {
     let mut v = Vec::new();
     let mut c = tree.walk();
@@ -406,6 +442,22 @@ fn main() {
         let mut probe = Parser::new();
         probe.set_language(&b.language).unwrap();
         let mut exh_done = 0;
+        // pool of token texts by kind, harvested from error-free documents of this language
+        let mut pool: BTreeMap<u16, Vec<Vec<u8>>> = BTreeMap::new();
+        for _ in 0..12 {
+            let toks = gg.sentence(&mut rng, 30);
+            let (text, _) = gg.render(&toks, &mut rng);
+            if let Some(t) = probe.parse(&text, None) {
+                if !t.root_node().has_error() {
+                    for (k, a, b) in leaves(&t) {
+                        let e = pool.entry(k).or_default();
+                        if e.len() < 24 && !e.contains(&text[a..b].to_vec()) {
+                            e.push(text[a..b].to_vec());
+                        }
+                    }
+                }
+            }
+        }
         for d in 0..docs_per_lang {
             let budget = [4, 10, 25, 60][d % 4];
             let toks = gg.sentence(&mut rng, budget);
@@ -433,7 +485,37 @@ fn main() {
                 let mut cur_ranges = ranges0.clone();
                 let mut hs = Vec::new();
                 for _ in 0..steps {
-                    let te = random_edit(&mut rng, &cur, &bounds, &alpha_refs);
+                    let te = match rng.below(8) {
+                        // replace one token by another text of the same kind (usually stays in the language)
+                        0 | 1 | 2 => match probe.parse(&cur, None).map(|t| leaves(&t)) {
+                            Some(ls) if !ls.is_empty() => {
+                                let (k, a, b) = *rng.pick(&ls);
+                                match pool.get(&k) {
+                                    Some(alts) => TextEdit { start: a, old_end: b, ins: rng.pick(alts).clone() },
+                                    None => random_edit(&mut rng, &cur, &bounds, &alpha_refs),
+                                }
+                            }
+                            _ => random_edit(&mut rng, &cur, &bounds, &alpha_refs),
+                        },
+                        // whitespace at a token boundary
+                        3 => {
+                            let at = if bounds.is_empty() { 0 } else { (*rng.pick(&bounds)).min(cur.len()) };
+                            if rng.chance(1, 3) && at < cur.len() && (cur[at] == b' ' || cur[at] == b'\n') {
+                                TextEdit { start: at, old_end: at + 1, ins: if rng.chance(1, 2) { vec![] } else { b"  ".to_vec() } }
+                            } else {
+                                TextEdit { start: at, old_end: at, ins: rng.pick(&[&b" "[..], &b"\n"[..], &b"\n  "[..]]).to_vec() }
+                            }
+                        }
+                        // back to the original document (out of an erroneous intermediate state)
+                        4 if cur != text => diff_edit(&cur, &text),
+                        // towards a freshly derived sentence
+                        5 => {
+                            let toks2 = gg.sentence(&mut rng, budget);
+                            let (t2, _) = gg.render(&toks2, &mut rng);
+                            diff_edit(&cur, &t2)
+                        }
+                        _ => random_edit(&mut rng, &cur, &bounds, &alpha_refs),
+                    };
                     let new = te.apply(&cur);
                     let ranges = if !use_ranges {
                         vec![]
